@@ -9,6 +9,13 @@
    Uniform result tuples <<"ok", x>>, <<"err">>, <<"PANIC">> (TLC cannot compare a record with a string).
    The properties are the C17 clauses on the explorer's abstraction (ReceiverOps); violations are
    DESIGN results - a verdict needs the replay of the history against the real handler.
+   SHIFTED channels (encoder numbers != time / duration, off-grid times, startNr): the model stays unshifted.  For the
+   buffers, counters and the timeline the shift is a RENAMING of the numbers (stored number = time / duration - startNr);
+   the (R) driver replays the same histories on shifted channels, derives the renumbered name / time of every upload by
+   its own arithmetic (harness/drive/c17/shift.go, the mapping of spec/ReceiverShiftOps.tla) and the trace spec
+   evaluates every C17 clause on the renumbered values.  What the renaming does not cover (the segments stored before
+   tune-in are forgotten by removeUnshifted) only makes the published range shorter; for those histories only
+   "no panic / started" of the explorer's prediction is compared with the real outcome.
    The Fix* constants select the algorithm: all TRUE = the CURRENT code (after the fix commits named at
    the constants), all FALSE = the algorithm as originally written, kept for the documented design
    counterexamples (the ReceiverImpl_cex_... configs). *)
